@@ -299,12 +299,14 @@ package termincommittee
 
 //@ iface interfaces.Storage.GetPreprepareFromView
 //@   ensures result1 == ppStored[view]
+//@   ensures result1 ==> result0 == PPAt(self, blockHeight, view)
 //@   ensures result1 ==> result0 != nil && result0.content != nil && result0.content.SignedHeader().View() == view
 //@     | && result0.content.SignedHeader().BlockHeight() == blockHeight && content(result0.content.SignedHeader().BlockHash()) == ppHash[view]
 
 //@ iface interfaces.Storage.GetPrepareMessages
 //@   ensures result0 == PMsgs(self, pver, blockHeight, view, blockHash)
 //@   ensures result1 ==> len(result0) == len(PIds(self, pver, blockHeight, view, blockHash))
+//@   ensures [A-STORE.found-when-a-prepare-is-stored-under-the-key] len(PIds(self, pver, blockHeight, view, blockHash)) >= 1 ==> result1
 //@   ensures forall i :: 0 <= i && i < len(result0) ==> result0[i] != nil && result0[i].content != nil
 //@   ensures forall i :: 0 <= i && i < len(result0) ==> PrepareOK(caller, result0[i]) && result0[i].content.SignedHeader().BlockHeight() == blockHeight
 //@     | && result0[i].content.SignedHeader().View() == view && result0[i].content.SignedHeader().BlockHash() == blockHash
@@ -810,3 +812,14 @@ package termincommittee
 //@   modifies @TICSTART
 //@   assert before call sendConsensusMessage [O14.3.first-leader-only-if-allowed] tic.State.height <= 1 || canBeFirstLeader
 //@   assert before call sendConsensusMessage [O15.6.context-observed-live-after-the-proposal-request] lastCtxErrNil
+
+// ---- logging helpers evaluated on values taken from received messages (calls are skipped as A-LOG; that they cannot panic is proved here) ----
+//@ func Str
+//@   props C12
+//@ func ToCommitteeMembersStr
+//@   props C12
+//@ func GetMemberIds
+//@   props C12
+//@   ensures [one-id-per-member] len(result) == len(members)
+//@   loop range members
+//@     invariant [length] len(ids) == len(members)
